@@ -10,7 +10,8 @@ import (
 )
 
 // Statics is a deliberately colliding pool of static segments.
-var Statics = []string{"a", "b", "ab", "abc", "a.b", "x", "foo", "foobar"}
+// "$b", "!" and "+a" start with bytes that sort before '*' ('!', '$') or between '*' and '/' ('+'): edge order around wildcard children.
+var Statics = []string{"a", "b", "ab", "abc", "a.b", "x", "foo", "foobar", "$b", "!", "+a"}
 
 // Values is the pool wildcard values are drawn from; it overlaps Statics so that
 // static, parameter and catch-all alternatives compete for the same requests.
